@@ -278,6 +278,8 @@ func genC02(ctx *Ctx) {
 	// (f) the same, with the schedule forced: connection A's writer is stalled while B re-prepares
 	forcedReprepareSchedule(ctx, &tag)
 	forcedSharedRequestSchedule(ctx, &tag)
+	// (g) hosts on which the re-preparation succeeds under another id
+	c02OtherID(ctx, &tag)
 }
 
 type waitReq struct {
